@@ -8,7 +8,7 @@ import numpy as np
 
 from . import lapack
 from .array import HANDLERS, SymArray, W, lift, _raw
-from .core import C, E, Inconclusive, Sym, SymBool
+from .core import C, E, Inconclusive, PyNum, Sym, SymBool
 
 MODE = {"symbolic": False}
 _ORIG = {}
@@ -21,7 +21,7 @@ def symbolic(on):
 
 def _is_sym(*xs):
     for x in xs:
-        if isinstance(x, (SymArray, Sym, SymBool)):
+        if isinstance(x, (SymArray, Sym, SymBool, PyNum)):
             return True
         if isinstance(x, (list, tuple)) and _is_sym(*x):
             return True
@@ -97,8 +97,15 @@ def install():
         return lift(r) if MODE["symbolic"] and _inexact(dtype if dtype is not None else float) else r
 
     def array(arr, dtype=None, device=None):
+        if isinstance(arr, PyNum):
+            if isinstance(arr, complex) and dtype is not None and np.dtype(dtype).kind != 'c':
+                raise TypeError("float() argument must be a string or a real number, not 'complex'")
+            return W(arr.sym, dtype or ('complex128' if isinstance(arr, complex) else 'float64'))
         if isinstance(arr, (Sym, SymBool)):
-            return W(arr, dtype or 'float64')
+            if isinstance(arr, Sym) and not arr.im.is_zero() and dtype is not None and np.dtype(dtype).kind != 'c':
+                # np.array(1+2j, dtype=float64) raises for a python complex
+                raise TypeError("float() argument must be a string or a real number, not 'complex'")
+            return W(arr, dtype or ('float64' if not isinstance(arr, Sym) or arr.im.is_zero() else 'complex128'))
         if isinstance(arr, SymArray):
             return arr.astype(dtype) if dtype is not None else arr.copy()
         if isinstance(arr, (list, tuple)) and _is_sym(*_flatten(arr)):
